@@ -406,6 +406,105 @@ impl Harness for Trees {
 }
 
 // ------------------------------------------------------------------------------------------------
+// values that are written through `Serializer::collect_str` (a `Display` that produces its text in
+// several pieces): the same string serde_json writes, into every buffer length
+
+#[derive(Debug)]
+struct Pieces(Vec<String>);
+impl std::fmt::Display for Pieces {
+    fn fmt(&self, f: &mut std::fmt::Formatter<'_>) -> std::fmt::Result {
+        for p in &self.0 {
+            f.write_str(p)?;
+        }
+        Ok(())
+    }
+}
+impl Serialize for Pieces {
+    fn serialize<S: Serializer>(&self, s: S) -> Result<S::Ok, S::Error> {
+        s.collect_str(self)
+    }
+}
+#[derive(Debug, Serialize)]
+struct WithDisplay {
+    before: u8,
+    d: Pieces,
+    after: bool,
+}
+
+#[derive(Debug, Serialize)]
+struct Pre {
+    x: String,
+}
+
+fn piece(kind: usize) -> String {
+    match kind {
+        0 => String::new(),
+        1 => "x".into(),
+        2 => "q\"\\\n".into(),
+        3 => "\u{e9}\u{20ac}".repeat(7),
+        4 => "interface org.example.thing\n".into(),
+        5 => "a comment of some length that goes on for a while, ".repeat(4),
+        6 => "y".repeat(255),
+        _ => "z\t".repeat(150),
+    }
+}
+const PIECE_KINDS: u64 = 8;
+
+/// 1..=3 pieces, every combination of kinds; each value into every buffer length 0..=len+1 and
+/// through the public send path from every amount 0..=300 of already enqueued bytes.
+fn display_case(idx: u64, sink: &mut Sink<'_>) {
+    let n = 1 + (idx % 3) as usize;
+    let mut rest = idx / 3;
+    let mut pieces = Vec::new();
+    for _ in 0..n {
+        pieces.push(piece((rest % PIECE_KINDS) as usize));
+        rest /= PIECE_KINDS;
+    }
+    if rest != 0 {
+        // (index space is 3 * 8^3; combinations of fewer pieces repeat: count them once)
+        sink.pass(0);
+        return;
+    }
+    let lens: Vec<usize> = pieces.iter().map(|p| p.len()).collect();
+    let case = json!({"group": "display-pieces", "index": idx, "piece_lengths": lens});
+    let v = WithDisplay { before: 1, d: Pieces(pieces), after: true };
+    let want = serde_json::to_vec(&v).unwrap();
+    sink.goal("value-written-through-collect_str");
+    let mut buf = vec![0u8; want.len() + 2];
+    for l in 0..=want.len() + 1 {
+        let r = json_to_slice(&v, &mut buf[..l]);
+        let ok = if l < want.len() { r == Err(true) } else { r == Ok(want.len()) && buf[..want.len()] == want[..] };
+        if !ok {
+            sink.fail("jsoneq:wrong-answer-for-a-buffer-length", format!("a Display value of pieces {lens:?} (encoding {} bytes) into a {l}-byte buffer: {r:?}{}", want.len(), if let Ok(k) = r { format!(" `{}`", simnet::show(&buf[..k.min(l)])) } else { String::new() }), case);
+            return;
+        }
+    }
+    // the public path, from several fill levels of the send buffer
+    for fill in [0usize, 9, 100, 200, 250, 255, 256, 300] {
+        let wire = simnet::Wire::new(0, None);
+        let mut conn = wire.connection();
+        let mut expect = Vec::new();
+        if fill > 0 {
+            let pre = zlink_core::Call::new(Pre { x: "p".repeat(fill - 9) });
+            if let Err(e) = conn.enqueue_call(&pre) {
+                xplore::bug!("prefill refused: {e:?}");
+            }
+            expect.extend_from_slice(&serde_json::to_vec(&pre).unwrap());
+            expect.push(0);
+        }
+        let r = simnet::complete(conn.send_reply(&zlink_core::Reply::new(Some(&v))));
+        expect.extend_from_slice(&serde_json::to_vec(&zlink_core::Reply::new(Some(&v))).unwrap());
+        expect.push(0);
+        if r.is_err() || wire.written() != expect {
+            sink.fail("jsoneq:public-path-bytes-differ", format!("a Display value of pieces {lens:?} sent with {fill} bytes already enqueued: {r:?}, the transport got `{}`", simnet::show(&wire.written())), case);
+            return;
+        }
+    }
+    sink.steps(want.len() as u64);
+    sink.pass(H64::new().bytes(&want).get());
+}
+
+// ------------------------------------------------------------------------------------------------
 // scalar sweeps
 
 const ESC: [u32; 40] = [
@@ -624,7 +723,7 @@ fn public_values() -> Vec<V> {
 
 pub fn run(tier: Tier) -> i32 {
     let mut rep = Report::new("C03", tier.name());
-    rep.rule = "sweeps (complete index ranges): every Unicode scalar as char, as 1-char str and as str/char map key; all triples over 40 escape-relevant code points as a string and as key+value; every i8/u8/i16/u16 as value and as map key; the structured wide-integer set (0, +-1, MIN, MAX, +-10^k+-1, every value with <=2 set bits +-1, in every width that holds it) as value and key; f64: all 2048 exponents x {0,1,all-ones, each single mantissa bit} x sign; f32: quick = every exponent x sign x 64 mantissa patterns, thorough = all 2^32 bit patterns; public path: 62 structured values x every amount 0,9..=300 of already enqueued bytes. DFS: every value tree within the bounds named by each phase (levels / alphabet / children / map entries) over 24 leaves + 13 containers (one per Serializer method) with 24 key kinds, the smaller ones also serialized into every buffer length 0..=len+1. Distinct = distinct encodings".into();
+    rep.rule = "sweeps (complete index ranges): every Unicode scalar as char, as 1-char str and as str/char map key; all triples over 40 escape-relevant code points as a string and as key+value; every i8/u8/i16/u16 as value and as map key; the structured wide-integer set (0, +-1, MIN, MAX, +-10^k+-1, every value with <=2 set bits +-1, in every width that holds it) as value and key; f64: all 2048 exponents x {0,1,all-ones, each single mantissa bit} x sign; f32: quick = every exponent x sign x 64 mantissa patterns, thorough = all 2^32 bit patterns; public path: 62 structured values x every amount 0,9..=300 of already enqueued bytes. values written through Serializer::collect_str (a Display producing its text in 1..3 pieces of 0..300 bytes, with characters that need escaping) into every buffer length and from eight fill levels of the send buffer. DFS: every value tree within the bounds named by each phase (levels / alphabet / children / map entries) over 24 leaves + 13 containers (one per Serializer method) with 24 key kinds, the smaller ones also serialized into every buffer length 0..=len+1. Distinct = distinct encodings".into();
     rep.assumptions = vec![
         "serde_json::to_vec driven by the same Serialize impl is the reference".into(),
         "a key of kind bool / float / Option (which serde_json accepts and zlink refuses) may be refused; str, char, integer and unit-variant keys must be accepted; every other key kind must be refused".into(),
@@ -711,6 +810,8 @@ pub fn run(tier: Tier) -> i32 {
     });
     rep.extra.insert("supplementary_sampled".into(), json!({"cases": st.evals, "seed": seed, "note": "pseudo-random f64 bit patterns and 128-bit integers; sampling, not enumeration"}));
     rep.add(st);
+    rep.require_goal("value-written-through-collect_str");
+    rep.add(sweep("display-values(collect_str)", 3 * PIECE_KINDS * PIECE_KINDS * PIECE_KINDS, &cfg, display_case));
     // the bytes on a real wire: zlink-tokio / zlink-smol transports, a raw reader at the other end
     rep.require_goal("message-of-more-than-100KB-over-a-real-socket");
     rep.rule.push_str("; plus (child process `sockets c03-child`) the raw bytes a std reader takes off a real socket pair whose other end is a zlink connection over the zlink-tokio / zlink-smol transport: sequences of 1..2 (thorough 3) messages of 300 B .. 150 KB with characters that need escaping, x how much the reader takes off per pending sender poll (nothing until the sender stalls, 4 KiB, 64 KiB, everything) x smallest / default socket buffers; must equal serde_json's encodings each followed by one NUL");
